@@ -69,8 +69,8 @@ class Prop:
         quick = tier == "quick"
         groups = list(M.gen_groups(3 if quick else 4, full=not quick))
         # deeper shapes (depth 3, two grandchildren; a chain of 4): thorough = all five x everything,
-        # quick = two of them, 'mixed' labeling, every 4th alternative
-        groups += list(M.gen_groups(0, shapes=M.EXTRA_SHAPES[:2] if quick else M.EXTRA_SHAPES,
+        # quick = three of them (two grandchildren, a chain of 4, three grandchildren), 'mixed' labeling, every 4th alternative
+        groups += list(M.gen_groups(0, shapes=[M.EXTRA_SHAPES[i] for i in (0, 1, 3)] if quick else M.EXTRA_SHAPES,
                                     labelings=("mixed",) if quick else ("mixed", "equal"), full=not quick))
         for gi, g in enumerate(groups):
             alts = g["alts"]
